@@ -251,6 +251,7 @@ OPS = {
     "iadd": ("list", True),
     "remove": ("list", True),
     "reverse": ("list", True),
+    "setpath": ("both", True),  # navigate afresh then assign: obj[p0][p1]...[key] = value
     # attribute syntax (attr dict families)
     "getattr": ("dict", False),
     "setattr": ("dict", True),
@@ -339,6 +340,12 @@ def impl_call(obj, op, args, mk_synced=None):
         return obj.remove(a[0])
     if op == "reverse":
         return obj.reverse()
+    if op == "setpath":
+        o = obj
+        for p_ in a[0]:
+            o = o[p_]
+        o[a[1]] = a[2]
+        return None
     if op == "getattr":
         return getattr(obj, a[0])
     if op == "setattr":
@@ -550,6 +557,14 @@ def ref_apply(node, op, args, dotted_forbidden=False):
             return _ok(None)
         if op == "reverse":
             node.reverse()
+            return _ok(None)
+        if op == "setpath":
+            if forbidden(a[2]):
+                return Expect("reject")
+            n2 = node
+            for p_ in a[0]:
+                n2 = n2[p_]
+            n2[a[1]] = copy.deepcopy(a[2])
             return _ok(None)
     except Exception as e:  # noqa: BLE001
         return _exc(e)
